@@ -13,6 +13,8 @@ func init() { register("C13", "exploration", runC13) }
 
 func runC13(r *engine.Run) {
 	r.Rule = "E1 over a finite space, enumerated completely in both tiers: 24 band names x repeater x dwell-time; per configuration: every data-rate index -1..16 x direction; protocol version {1.0.0..1.1.0, unknown} x revision {A,B,C,RP002-1.0.0..3, unknown} x DR -1..16 through GetMaxPayloadSizeForDataRateIndex and every (version, revision, DR) cell of the snapshot; every default channel; TX-power indices -1..16. Oracle: table closure and relations decided on the hook snapshot (exact key sets and direction flags), Regional Parameters constants from mc/spec/region.go. Non-trivial: a table cell or accessor result that was compared; distinct by construction."
+	bandGetterHistory(r)
+	bandInstanceHistory(r)
 	r.Assume("numeric payload sizes are judged by the stated relations (M=N+8, N<=242, repeater<=non-repeater, monotone in SF at equal bandwidth), not cell by cell against the Regional Parameters (the property does not state it)")
 	r.Assume("the pair {M:0,N:0} is the library's encoding of 'not usable' under dwell-time and is exempt from M=N+8")
 
